@@ -35,7 +35,10 @@ RULE = ("streams: E1 exhaustive -- every operation sequence of length <= 3 (quic
         "method name (and unknown ones) in three casings, bare, qualified and through external/, incl. the external "
         "optimizer's constructor; E9 -- a falsy plug-in object (len() == 0) requested bare and by name (F19a); E7 -- a rejected registration in the middle of a sequence followed by the probe block; "
         "E8 -- the same request (or listing) before and after each of 8 registrations, on the same and on a second "
-        "manager, for every type; corpus -- the inputs of 5 seeded and 8 own regressions and of finding F19a.  The cases are shuffled (seeded) "
+        "manager, for every type; E10 -- the same bare/qualified method string asked of two different plug-in types of one "
+        "manager, repeatedly, with no registration in between (11 shared names x 12 type pairs x 4 prefixes); E11 -- managers "
+        "obtained through OptimizerContext() / BasicOptimizer (default path) and OptimizerContext(plugin_manager=...) next to "
+        "plain ones (every sequence <= 2 over 6 ops x 2 managers for 5 source combinations, plus sampled); corpus -- the inputs of 5 seeded and 8 own regressions and of finding F19a.  The cases are shuffled (seeded) "
         "over the shards.  Non-trivial = the sequence contains a successful add_plugin and a later lookup, or probes the "
         "built-in tables; distinct = distinct case.")
 ASSUMPTIONS = [
@@ -115,8 +118,16 @@ def _seqs(alphabet, n):
         yield from itertools.product(alphabet, repeat=L)
 
 
-def _mk(stream, managers, ops):
-    return {"stream": stream, "managers": managers, "ops": [[i, t, list(op)] for i, t, op in ops][:MAX_OPS]}
+# how the driver obtains a manager: "pm" PluginManager(); "ctx" OptimizerContext(evaluator).plugin_manager (default
+# path); "basic" the manager of a BasicOptimizer's context; "ctx-explicit" OptimizerContext(evaluator, PluginManager())
+SOURCES = ["pm", "ctx", "basic", "ctx-explicit"]
+
+
+def _mk(stream, managers, ops, sources=None):
+    c = {"stream": stream, "managers": managers, "ops": [[i, t, list(op)] for i, t, op in ops][:MAX_OPS]}
+    if sources is not None and any(x != "pm" for x in sources):
+        c["sources"] = list(sources)
+    return c
 
 
 def _probe(rng, t, k):
@@ -166,7 +177,8 @@ def _gen_random(rng, stream, n, types_per_case, maxlen):
                 m = rng.choice(COMMON + TYPE_POOL[t] + TYPE_POOL[t])
                 op = [rng.choice(["get", "get", "sup"]), m]
             ops.append([rng.randrange(nm), t, op])
-        yield _mk(stream, nm, ops)
+        src = [rng.choice(SOURCES) for _ in range(nm)] if rng.random() < 0.4 else None
+        yield _mk(stream, nm, ops, src)
 
 
 def _cased(m, how):
@@ -272,6 +284,48 @@ def _gen_falsy():
                 yield _mk("E9-falsy", 2, ops)
 
 
+SHARED = ["default", "a", "b", "B", "slsqp", "mean", "uniform", "tracker", "optimizer", "sort-objective", "zzz"]
+
+
+def _gen_shared_methods():
+    """E10: the same bare (and qualified) method string asked of two DIFFERENT plug-in types of one manager, repeatedly
+    and with no registration in between (a method name is shared by 'default' of three built-in types and by the stubs)"""
+    pres = [lambda a, b: [],
+            lambda a, b: [[0, a, ["add", "d", ["stub", "D"], False]]],
+            lambda a, b: [[0, a, ["add", "A", ["stub", "A"], False]], [0, b, ["add", "B", ["stub", "B"], True]]],
+            lambda a, b: [[0, b, ["add", "d", ["stub", "D"], True]], [0, a, ["add", "N", ["stub", "N"], True]]]]
+    for m in SHARED:
+        for t1 in range(6):
+            for k in (1, 2):
+                t2 = (t1 + k) % 6
+                for pi, pre in enumerate(pres):
+                    for kinds in (("get", "get", "get"), ("sup", "get", "sup")):
+                        ops = pre(t1, t2) + [[0, t1, [kinds[0], m]], [0, t2, [kinds[1], m]], [0, t1, [kinds[2], m]]]
+                        if pi == 1:
+                            ops += [[0, t2, ["get", "d/" + m]], [0, t1, ["get", "D/" + m]]]
+                        yield _mk("E10-shared-method", 1, ops)
+
+
+def _gen_default_managers(rng, n):
+    """E11: managers obtained through OptimizerContext / BasicOptimizer (default path) next to plain ones"""
+    combos = [["ctx", "ctx"], ["basic", "basic"], ["ctx", "basic"], ["ctx", "pm"], ["basic", "ctx-explicit"],
+              ["ctx", "ctx", "ctx"], ["basic", "ctx", "pm"]]
+    alpha6 = [[i, 0, op] for i in (0, 1) for op in E6_OPS]
+    for src in combos[:5]:
+        for seq in _seqs(alpha6, 2):
+            yield _mk("E11-default-managers", 2, seq, src)
+    for _ in range(n):
+        src = rng.choice(combos)
+        nm = len(src)
+        ops = []
+        for _ in range(rng.randint(3, 8)):
+            t = rng.choice([0, 0, 0, 1, 3, 5])
+            r = rng.random()
+            op = _rand_add(rng, t, []) if r < 0.4 else ["list"] if r < 0.5 else [rng.choice(["get", "sup"]), rng.choice(COMMON + TYPE_POOL[t])]
+            ops.append([rng.randrange(nm), t, op])
+        yield _mk("E11-default-managers", nm, ops, src)
+
+
 def gen_cases(tier, rng):
     """all streams, then shuffled (seeded) so that the expensive long cases are spread evenly over the Coq shards"""
     cases = list(_gen_streams(tier, rng))
@@ -310,6 +364,9 @@ def _gen_streams(tier, rng):
     yield from _gen_stale_types()
     if FALSY_STREAM:
         yield from _gen_falsy()
+    # E10 / E11
+    yield from _gen_shared_methods()
+    yield from _gen_default_managers(rng, 150 if quick else 2500)
 
 
 def _norm(case):
@@ -380,6 +437,28 @@ def _fwd(method):
     return ["ok"]
 
 
+def _no_evaluator(variables, context):  # never called
+    raise NotImplementedError
+
+
+def _make_manager(source):
+    from ropt.plugins import PluginManager
+    if source == "pm":
+        return PluginManager()
+    from ropt.plan import BasicOptimizer, OptimizerContext
+    if source == "ctx":
+        return OptimizerContext(evaluator=_no_evaluator).plugin_manager
+    if source == "ctx-explicit":
+        pm = PluginManager()
+        if OptimizerContext(evaluator=_no_evaluator, plugin_manager=pm).plugin_manager is not pm:
+            raise AssertionError("OptimizerContext does not use the manager it was given")
+        return pm
+    if source == "basic":
+        bo = BasicOptimizer({"variables": {"initial_values": [0.0, 1.0]}}, _no_evaluator)
+        return bo._optimizer_context.plugin_manager  # noqa: SLF001 - the only way to reach the default-path manager
+    raise ValueError(source)
+
+
 def _run(case):
     case = _norm(case)
     from ropt.exceptions import ConfigError
@@ -389,7 +468,9 @@ def _run(case):
     fresh = PluginManager()
     init = [[[n, type(p).__name__] for n, p in fresh.plugins(t)] for t in TYPES]
     classes = {BUILTIN_K.get(type(p).__name__, UNKNOWN_K): p for t in TYPES for _, p in fresh.plugins(t)}
-    mans = [PluginManager() for _ in range(case["managers"])]
+    mans = [_make_manager(x) for x in (case.get("sources") or ["pm"] * case["managers"])]
+    if len(mans) != case["managers"]:
+        raise ValueError("sources do not match the number of managers")
     made: dict = {}          # op index -> (object, id)
     ids: dict = {}           # id(object) -> id given by the driver
     keep = []
@@ -535,7 +616,7 @@ def _pristine(case):
 
 def _key(case):
     import json
-    return json.dumps([case["managers"], case["ops"]], sort_keys=True)
+    return json.dumps([case["managers"], case["ops"], case.get("sources")], sort_keys=True)
 
 
 def run_impl(case):
@@ -544,7 +625,7 @@ def run_impl(case):
         return _pristine(case)
     obs = _run(case)
     hist = list(_HISTORY[-HISTORY_KEEP:])
-    _HISTORY.append({"managers": case["managers"], "ops": case["ops"]})
+    _HISTORY.append({k: case[k] for k in ("managers", "ops", "sources") if k in case})
     try:
         v = _oracle(case, obs)
     except Exception:  # noqa: BLE001
@@ -580,7 +661,7 @@ def _all_strings():
         out |= set(ms)
     for op in ADD_COUPLED + E1_LOOKUPS + E6_OPS + E2_ADDS:
         out.add(op[1])
-    for c in itertools.chain(_gen_tables(), _gen_stale_types(), _gen_falsy()):
+    for c in itertools.chain(_gen_tables(), _gen_stale_types(), _gen_falsy(), _gen_shared_methods()):
         out |= {op[1] for _, _, op in c["ops"] if len(op) > 1}
     names = set(ADD_NAMES) | {n for reg in STD_INIT for n, _ in reg}
     for n in names:
@@ -841,6 +922,7 @@ def features(case, obs):
     kinds = [a[0] for a in obs["answers"]]
     n = len(ops)
     f = {"stream": case.get("stream", "corpus"), "managers": case["managers"],
+         "manager_sources": "+".join(sorted(set(case.get("sources") or ["pm"]))),
          "len": n if n <= 4 else "5-8" if n <= 8 else "9-16" if n <= 16 else "17+",
          "errors": min(3, kinds.count("err")),
          "types_in_case": len({t for _, t, _ in ops}),
@@ -916,7 +998,12 @@ def shrink(case):
         if c is not None:
             yield c
     if case["managers"] > 1 and all(i < case["managers"] - 1 for i, _, _ in case["ops"]):
-        yield {**case, "managers": case["managers"] - 1}
+        c = {**case, "managers": case["managers"] - 1}
+        if case.get("sources"):
+            c["sources"] = case["sources"][:-1]
+        yield c
+    if case.get("sources") and any(x != "pm" for x in case["sources"]):
+        yield {k: v for k, v in case.items() if k != "sources"}
 
 
 def search(rng, case):
